@@ -21,6 +21,17 @@ def split_sel(text):
     return name, (None if cnt is None else int(cnt)), off
 
 
+def blanked(rng, alpha):
+    """one case in six uses row names with leading / trailing blanks next to their
+    bare forms (' a', 'a', 'b ', ' c '): a name is the exact string"""
+    if rng.random() > 1 / 6:
+        return alpha
+    out = []
+    for a in alpha:
+        out += rng.sample([a, " " + a, a + " ", " " + a + " ", "  " + a], rng.choice([1, 2, 2]))
+    return out[:6]
+
+
 def gen_rowsel(rng, n, alpha):
     k = rng.random()
     name = rng.choice(alpha + ["zz"] if rng.random() < 0.1 else alpha)
@@ -43,7 +54,7 @@ def gen_rowsel(rng, n, alpha):
 
 
 def gen_case(rng, maxrows=12, maxops=12):
-    alpha = NAMES[:rng.choice([2, 3, 3, 4, 5])]
+    alpha = blanked(rng, NAMES[:rng.choice([2, 3, 3, 4, 5])])
     n = rng.choice([0, 1, 2, 3, 4, 5, 6, 8, 10, maxrows])
     idx = [rng.choice(alpha) for _ in range(n)]
     ncols = rng.choice([0, 1, 2])
@@ -81,7 +92,7 @@ def gen_case(rng, maxrows=12, maxops=12):
     return {"idx": idx, "cols": cols, "ops": ops}
 
 
-LONG_ALPHAS = [["ip", "mq"], ["ip", "mq", "mb"], ["aa", "bb", "cc", "dd"], ["\u00e91", "\u00df2", "ip"], ["mq", "Mq", "MQ"]]
+LONG_ALPHAS = [[" a", "a ", "ab"], ["ip", "mq"], ["ip", "mq", "mb"], ["aa", "bb", "cc", "dd"], ["\u00e91", "\u00df2", "ip"], ["mq", "Mq", "MQ"]]
 
 
 def gen_long_case(rng):
@@ -140,7 +151,7 @@ def gen_derive_case(rng):
     index column (names only in the appended part, negative counts, counts
     beyond the source's occurrences, writes by name::-1, get_index_unique),
     repeated 1-3 times.  In the operations "name" stands for the current index column."""
-    alpha = NAMES[:rng.choice([2, 3, 3])]
+    alpha = blanked(rng, NAMES[:rng.choice([2, 3, 3])])
     n = rng.randint(1, 8)
     idx = [rng.choice(alpha) for _ in range(n)]
     cols = [[COLS[i], [rng.randint(-50, 50) for _ in range(n)]] for i in range(rng.choice([0, 1, 2]))]
@@ -683,7 +694,7 @@ def oracle_fails(case):
 
 
 def run(ctx):
-    ctx.rule = ("random Table histories (0..12 rows, 2-5 names, 0-2 integer columns, <=12 ops mixing lookups in string/tuple/int form "
+    ctx.rule = ("random Table histories (0..12 rows, 2-5 names (one case in six: names with leading / trailing blanks next to their bare forms), 0-2 integer columns, <=12 ops mixing lookups in string/tuple/int form "
                 "with cell/column/attribute assignments, new columns, deletions, get_index_unique) plus every index column over "
                 "{a,b,c} up to length 3 (quick) / 5 (thorough) x every name/count/offset selector, plus 48 (quick) / 600 (thorough) long "
                 "tables (17..200 rows over 2-4 names so that every name repeats many times; object and fixed-width unicode index columns; "
